@@ -31,7 +31,8 @@ def _probe_P(K, seed):
 
 
 def forward_case(case):
-    name, axis, value, ovo, seed = case
+    name, axis, value, ovo, seed = case[:5]
+    route = case[5] if len(case) > 5 else "direct"
     X = seams.tiny_data(N, D, seed + 60)
     if (axis == "kernel" and aff.needs_nonneg(value)) or (axis == "gemini" and isinstance(value, list) and value[0] == "MMD" and aff.needs_nonneg(value[1])):
         X = np.abs(X) + 0.1
@@ -43,8 +44,22 @@ def forward_case(case):
     if ovo is not None:
         spec["ovo"] = ovo
     model, y, expect = C.build(name, spec, X, seed)
-    where = dict(estimator=name, axis=axis, value=value if not isinstance(value, list) else "/".join(map(str, value)), ovo=ovo)
+    where = dict(estimator=name, axis=axis, value=value if not isinstance(value, list) else "/".join(map(str, value)), ovo=ovo, route=route)
     v = []
+    if route != "direct":
+        # the estimator as scikit-learn's tooling uses it: a clone (GridSearchCV, cross_validate), a clone given its hyperparameters again by
+        # set_params, a pickled / deep-copied copy (joblib workers, pipelines) - it still describes the same GEMINI, mode and affinity
+        from sklearn.base import clone
+        from mc import transport
+        try:
+            if route == "clone":
+                model = clone(model)
+            elif route == "clone_set_params":
+                model = clone(model).set_params(**model.get_params(deep=False))
+            else:
+                model = transport.roundtrip(model, route)
+        except Exception as e:  # noqa
+            return {"v": [violation("gemini_is_not_the_one_the_hyperparameters_describe", {"route": route, "error": repr(e)[:300]}, **where)], "stats": {"evals": 1}}
     if name == "Kauri":
         A = model._compute_kernel(X, y)
         same = np.allclose(A, expect["A"], rtol=1e-12, atol=1e-14) if value == "callable" else np.array_equal(np.asarray(A, dtype=float), np.asarray(expect["A"], dtype=float))
@@ -397,6 +412,8 @@ def explorers(tier, seed):
         c1.append(("KernelRIM", "base_kernel", tag, None, seed))
     for tag in [s[0] for s in aff.KERNEL_SPECS if s[2] is None and s[0] != "callable"] + ["callable"]:
         c1.append(("Kauri", "kernel", tag, None, seed))
+    routes = ["clone", "clone_set_params", "pickle", "deepcopy", "cloudpickle"]
+    c1 += [c + (routes[i % len(routes)],) for i, c in enumerate(list(c1))]
     c2 = [(name, seed) for name in M.HAS_KERNEL + M.HAS_METRIC + ["LinearModel", "MLPModel", "Douglas"]]
     c3 = []
     diff_k = ["linear", "rbf_g", "poly_p", "sigmoid_p", "cosine"] + (["laplacian_g", "rbf", "polynomial", "additive_chi2"] if thorough else [])
